@@ -157,7 +157,7 @@ def mkImgs (hs : List Bytes) (mime data : Bytes → Bytes) (fails : Bytes → Bo
     (`filterImgs (findAll svg)`), any fetch results with `<`-free MIME types, any failing subset and any schedule. -/
 theorem C46_bundle (svg : Bytes) (isRemote : Bool) (mime data : Bytes → Bytes) (fails : Bytes → Bool)
     (hc : svgClean (splitLt svg).2 = true)
-    (hm : ∀ h ∈ filterImgs isRemote (findAll svg), lt ∉ mimeFix (mime h) (data h))
+    (hm : ∀ h ∈ filterImgs isRemote (findAll svg), lt ∉ mimeOut (mimeFix (mime h) (data h)))
     (steps : List PStep) (s : Pool) (v : Bytes) (e : List Bytes)
     (hrun : prun (Pool.init svg (mkImgs (filterImgs isRemote (findAll svg)) mime data fails)) steps = some s)
     (hret : s.ret = some (v, e)) :
@@ -187,6 +187,18 @@ theorem C46_bundle (svg : Bytes) (isRemote : Bool) (mime data : Bytes → Bytes)
   · rintro ⟨hh, hf⟩
     exact ⟨_, List.mem_map.mpr ⟨h, hh, rfl⟩, hf, rfl⟩
 
+/-- when the source under test escapes the MIME type (`Gen.Bundle.mimeEscaped`, extracted on every run), the
+    statement holds for every server answer: no hypothesis about MIME types is left -/
+theorem C46_bundle_escaped (hesc : Gen.Bundle.mimeEscaped = true)
+    (svg : Bytes) (isRemote : Bool) (mime data : Bytes → Bytes) (fails : Bytes → Bool)
+    (hc : svgClean (splitLt svg).2 = true)
+    (steps : List PStep) (s : Pool) (v : Bytes) (e : List Bytes)
+    (hrun : prun (Pool.init svg (mkImgs (filterImgs isRemote (findAll svg)) mime data fails)) steps = some s)
+    (hret : s.ret = some (v, e)) :
+    v = bundleSpec (mkImgs (filterImgs isRemote (findAll svg)) mime data fails) svg
+      ∧ (∀ h, h ∈ e ↔ h ∈ filterImgs isRemote (findAll svg) ∧ fails h = true) :=
+  C46_bundle svg isRemote mime data fails hc (fun _ _ => mimeOut_clean hesc _) steps s v e hrun hret
+
 /-! ### the two excluded points are real -/
 
 def cxA : Img := { href := [97], mime := [34, 60, 105, 109, 97, 103, 101, 32, 104, 114, 101, 102, 61, 34, 98, 34], data := [], fails := false }
@@ -196,7 +208,8 @@ def cxSvg : Bytes := K ++ [97, 34] ++ K ++ [98, 34]
 
 /-- without `mimeClean` (a server answering with a Content-Type that contains another image tag) the two completion
     orders give different texts -/
-theorem C46_cx_hostile_mime : bundleSeq cxSvg [cxA, cxB] ≠ bundleSeq cxSvg [cxB, cxA] := by decide
+theorem C46_cx_hostile_mime :
+    Gen.Bundle.mimeEscaped = false → bundleSeq cxSvg [cxA, cxB] ≠ bundleSeq cxSvg [cxB, cxA] := by decide
 
 def cxU : Img := { href := [60, 105, 109, 97, 103, 101, 32, 104, 114, 101, 102, 61], mime := [120], data := [], fails := false }
 /-- `<image href="<image href="b"<image href="b"` : not XML — an attribute value contains `<` -/
